@@ -213,6 +213,16 @@ func checkC02(c *Ctx) {
 	r.Min("C02.identity", 30)
 	c.include("identity", "C14", rulesIn("C14.coverage", "C14.injective"))
 
+	// vote records and per-validator cursors survive a restart (the genesis clauses of C15 about them)
+	c.includeKeys("genesis", "C15", rulesIn("C15.faithful-import", "C15.field-roundtrip", "C15.prefix-export", "C15.export-own-state"), func(rule, key string) bool {
+		for _, k := range []string{"LastEventNonceByValidatorKey", "ExternalEventVoteRecord", "Nonces", "every-chain"} {
+			if strings.Contains(key, k) {
+				return true
+			}
+		}
+		return false
+	})
+
 	// ---- C02.votes-writers ----------------------------------------------------
 	r.Min("C02.votes-writers", 3)
 	ws := c.Writers(c.LiveReach(), "", "ExternalEventVoteRecordKey")
@@ -562,7 +572,6 @@ func parseThreshold(ex string) (a, b int64, ok bool) {
 	b, _ = strconv.ParseInt(m[5], 10, 64)
 	return a, b, true
 }
-
 
 // checkNonceWriters: the per-validator nonce is what makes a second vote impossible: only the vote function
 // (with the event's nonce, see nonce-stored) and the genesis import may write it; any other writer can rewind it.
